@@ -162,9 +162,20 @@ def judge(m, ex, prefix, variant, ev, kind, info):
         if kind == 'send' and info['chan'] == {'client'}:
             return True, 'acknowledgement to the sender'
         return False, 'unexpected effect in the rp wrapper'
-    # unknown / unlisted variant
+    # unknown / unlisted variant (a command added after this table was written)
     if safe:
         return True, 'secure-key guard'
+    # a read-only command on the selected database: reply to the requester and scans behind the listing's secure-key filter,
+    # under the selected-database guard (the discipline of `keys`)
+    if any(x[0] in ('db', 'dbname', 'dbname_perm') for x in g):
+        if kind == 'send' and info.get('chan') == {'client'}:
+            return True, 'reply to the requester under the selected-database guard'
+        if kind == 'map-bulk-read':
+            from props import C08
+            if ev.frame.body.id in C08.filtered_scanners(m, prefix):
+                okf, whyf = C08.scanner_flag_ok(m, ex, ev)
+                if okf:
+                    return True, 'scan behind the secure-key filter under the selected-database guard (%s)' % whyf
     return False, 'unlisted variant acts outside the admin / secure-key guard'
 
 
